@@ -111,7 +111,8 @@ def build(kind, origin):
 
 
 def operations(kty, crv):
-    ops = ["as_dict(private=False)", "KeySet.as_dict(private=False)", "KeySet.as_dict(private=False) mixed-oct-first",
+    ops = ["as_dict(private=False)", "as_dict(private=False, extra parameters)", "KeySet.as_dict(private=False)", "KeySet.as_dict(private=False, extra parameters)",
+           "KeySet.as_dict(private=False) mixed-oct-first",
            "KeySet.as_dict(private=False) mixed-oct-middle", "KeySet.as_dict(private=False) mixed-oct-last", "thumbprint", "kid", "dict(key) after public export",
            "private-export-from-public"]
     if kty != "oct":
@@ -163,6 +164,14 @@ def h_outputs(ctx):
     r = None
     if op == "as_dict(private=False)":
         r = call(lambda: key.as_dict(private=False))
+    elif op == "as_dict(private=False, extra parameters)":
+        r = call(lambda: key.as_dict(private=False, use="sig" if sig_alg and kty != "oct" and not crv.startswith("X") else "enc", kid="exported"))
+    elif op == "KeySet.as_dict(private=False, extra parameters)":
+        if kty == "oct":
+            return Outcome("n/a", [], nontrivial=None)      # the oct members of a 'public' set are the known finding; this operation is about the others
+        other = A.jkey(scen.key(kind, 1), "dict")
+        ndl = ndl + needles(scen.key(kind, 1))
+        r = call(lambda: KeySet([key, other]).as_dict(private=False, use="sig" if not crv.startswith("X") else "enc"))
     elif op == "dict(key) after public export":
         r = call(lambda: (key.as_dict(private=False), key.as_dict(private=False, kid="x"))[1])
     elif op.startswith("KeySet.as_dict(private=False) mixed"):
@@ -359,10 +368,26 @@ def h_public_only(ctx):
     kt, arg = ctx.choose("kind", [("RSA", 1024), ("EC", "P-256"), ("EC", "P-384"), ("EC", "P-521"), ("EC", "secp256k1"),
                                   ("OKP", "Ed25519"), ("OKP", "Ed448"), ("OKP", "X25519"), ("OKP", "X448")])
     mode = ctx.choose("how", ["generate(private=False)", "generate(private=False, auto_kid=True)", "JWKRegistry.generate(private=False, auto_kid=True)",
-                              "generate_key_set(private=False)", "generate(private=False, parameters)", "public twin after the private key was exported"])
+                              "generate_key_set(private=False)", "generate(private=False, parameters)", "public twin after the private key was exported",
+                              "public JWK dict that the caller later completes with the private members"])
     cls = {"RSA": RSAKey, "EC": ECKey, "OKP": OKPKey}[kt]
     vs = []
-    if mode.startswith("public twin"):
+    if mode.startswith("public JWK dict"):
+        # D is imported as a public key; then the caller adds d (p, q, ...) to the very same dict to import the private key from it
+        kind = {1024: "rsa1024"}.get(arg, arg)
+        jwk = scen.key(kind)
+        D = rjwk.public_of(jwk)
+        via = ctx.choose("imported_by", ["Class.import_key", "JWKRegistry.import_key", "KeySet.import_key_set"])
+        if via == "Class.import_key":
+            keys = [cls.import_key(D)]
+        elif via == "JWKRegistry.import_key":
+            keys = [JWKRegistry.import_key(D)]
+        else:
+            keys = KeySet.import_key_set({"keys": [D]}).keys
+        D.update({m: v for m, v in jwk.items() if m not in D})
+        call(cls.import_key, D)
+        ndl = needles(jwk)
+    elif mode.startswith("public twin"):
         origin = ctx.choose("origin", ["pem", "der", "native", "dict"])
         kind = {1024: "rsa1024"}.get(arg, arg)
         jwk = scen.key(kind)
